@@ -10,4 +10,5 @@ def main : IO UInt32 :=
     | "c01re" => C01.check params lines
     | "c01twin" => C01.checkTwin params lines
     | "c01patient" => C01.check params lines
+    | "c01twins" => C01.check params lines
     | _ => { bad := [s!"unknown family {family}"] })
